@@ -23,7 +23,7 @@ Content(keys, vals, hasvals, o4, bigLatch) ==
       R |-> R, rp |-> rp,
       nodes |-> BuildNodes(keys, vals, hasvals, o.dd, bigLatch),
       valset |-> IF hasvals THEN {vals[i] : i \in 1..n} ELSE {NilV},
-      loaded |-> FALSE, stat |-> <<>>, lastk |-> <<>>, lastq |-> <<>>, lastrender |-> <<>>]
+      loaded |-> FALSE, stat |-> <<>>, lastk |-> <<>>, lastq |-> <<>>, lastrender |-> <<>>, legacy |-> FALSE]
 
 \* NewSlimTrie is all-or-nothing (C08):
 \*   "order"    the keys are not strictly ascending: rejected, no trie
@@ -72,6 +72,26 @@ ScanDelivers(c, start, incl, hasEnd, end, inclEnd, stop) ==
   IN IF stop >= 0 /\ stop < Len(all) THEN SubSeq(all, 1, stop) ELSE all
 
 ScanVal(c, withvalue, p) == IF withvalue THEN VR(c, p) ELSE NilV
+
+\* one whole scan call
+ScanBad(c, e) ==
+  IF Refuses(c)
+  THEN (IF e.pan = "" THEN {"notrefused"} ELSE {}) \cup (IF Len(e.yk) > 0 THEN {"yielded-unindexed"} ELSE {})
+  ELSE
+    LET exp == ScanDelivers(c, e.start, e.incl = 1, e.hasend = 1, e.end, e.inclend = 1, e.stop)
+    IN (IF e.pan # "" THEN {"panic"} ELSE {})
+       \cup (IF e.pan = "" /\ Len(e.yk) # Len(exp) THEN {"count"} ELSE {})
+       \cup (IF e.pan = "" /\ Len(e.yk) = Len(exp) /\ \E x \in 1..Len(exp) : e.yk[x] # c.ks[c.R[exp[x]]]
+             THEN {"keys"} ELSE {})
+       \cup (IF e.pan = "" /\ Len(e.yk) = Len(exp) /\ \E x \in 1..Len(exp) : e.yv[x] # ScanVal(c, e.withvalue = 1, exp[x])
+             THEN {"values"} ELSE {})
+       \cup (IF e.extras # 0 THEN {"after-exhaustion"} ELSE {})
+
+\* Layer M: the Model's scan (getGEPath + depth-first walk + key re-assembly)
+ScanDrift(c, e) ==
+  IF Refuses(c) \/ e.pan # "" THEN {}
+  ELSE LET ms == ModelScan(c.ks, c.nodes, c.o, e.start, e.incl = 1)
+       IN IF \E x \in 1..Len(e.yk) : x > Len(ms) \/ ms[x].key # e.yk[x] THEN {"modelscan"} ELSE {}
 
 \* iterators: iters[id] = [rest, wv]: the positions (in inst.R) still to be
 \* yielded.  Each iterator owns its cursor; reads of the trie do not touch it.
